@@ -553,7 +553,7 @@ def c02_monitor(s, a, rt):
                 break
             if ph in ("exit", "enter") and f.get("src", "?") not in ("?", "-") and f.get("tgt", "?") != "?" \
                     and f.get("ev", "?") != "?":
-                cands = [t for t in s.trans if str(t.src) == f["src"] and str(t.tgt) == f["tgt"]
+                cands = [t for t in eng.expanded_trans(s) if str(t.src) == f["src"] and str(t.tgt) == f["tgt"]
                          and int(f["ev"]) in t.events]
                 if cands and all(t.internal for t in cands):
                     fails.append(f"C02: {ph} callback ran for an internal transition: {l}")
